@@ -51,6 +51,9 @@
 (*                erases a revoke that completed meanwhile                                    *)
 (*   "claimLapsed" (ShortClaim only) the claim key is gone (its TTL ran out) although the     *)
 (*                code can still be activated                                                 *)
+(*   "claimDropped" (RelScope # "fail" only) the claim key is deleted although the activation *)
+(*                that holds it succeeded or is still in flight (released by the holder after *)
+(*                its own success, or by a caller that had LOST the claim)                    *)
 (*   "localClaim" (ClaimLocal only) a claim is won on one node while another node's local     *)
 (*                cache tier holds a claim for the same code (the claim is not cluster-wide)  *)
 (*                                                                                            *)
@@ -76,6 +79,15 @@ CONSTANTS Acts,       \* activator processes (each = one listen client, one Acti
                       \* holds the caller's own client id (read back with a Get)
           ResetOnFail,\* TRUE: design variant: after a failed final Update the rollback also writes the activation's own
                       \* (stale) copy of the code record back as "not activated" (2 more Sets: RstC, RstI)
+          ResetCreate,\* TRUE: design variant: the same write-back at the OTHER failure site - after a failed CreatePortMapping
+                      \* (the record write or the list append failed), before the claim is released
+          RelScope,   \* who deletes the claim key, and when:
+                      \*   "fail"   (the code as it is) the holder, after a failure that follows its won claim
+                      \*   "holder" design variant: the holder on EVERY return, also after its success (e.g. a deferred release:
+                      \*            "the IsActivated flag of the record covers reuse from then on")
+                      \*   "loser"  design variant: the failure cleanup also runs for a caller that LOST the claim ("release on
+                      \*            any failure after the claim step"): it deletes the key of the activation that holds it
+                      \*   "always" both (a release deferred right after the claim step)
           CanTick,    \* TRUE: time may pass (once, action Tick) by less than the code's remaining lifetime
           ShortClaim, \* TRUE: design variant: the claim key's TTL is shorter than the code's remaining lifetime,
                       \* so it is gone after a Tick although the code can still be activated
@@ -161,6 +173,12 @@ Leave(p)    == IF snap[p].rst THEN Goto(p, "RstC") ELSE AfterReset(p)
 UseFault(f) == /\ f => faultLeft > 0
                /\ faultLeft' = IF f THEN faultLeft - 1 ELSE faultLeft
 Mine(p)     == {m \in maps : m.id = p}
+\* design variant ResetCreate: a failed CreatePortMapping makes the failure path write the stale record back too
+MarkResetC(p) == IF ResetCreate THEN [snap EXCEPT ![p].rst = TRUE] ELSE snap
+\* a caller that did not get the claim returns "already used" (design variants RelScope = "loser" / "always": it first deletes the key)
+Lost(p) == IF RelScope \in {"loser", "always"} THEN Goto(p, "RelClaimLost") ELSE Return(p, "fail")
+\* success (design variants RelScope = "holder" / "always": the holder first deletes its claim)
+Won(p)  == IF Claim /\ RelScope \in {"holder", "always"} THEN Goto(p, "RelClaimOk") ELSE Return(p, "ok")
 \* after the quota reads: repaired design computes the claim TTL (remaining time) and refuses if it is gone
 AfterQuota(p) == IF Claim THEN (IF expired THEN Return(p, "fail") ELSE Goto(p, "Claim")) ELSE Goto(p, "GenId")
 
@@ -197,7 +215,7 @@ ClaimIt(p, f) == /\ pc[p] = "Claim" /\ UseFault(f)
                  /\ IF f THEN Return(p, "fail") /\ claim' = claim /\ dev' = dev                  \* storage error: nothing to undo
                     ELSE IF claim[Slot(p)] # "none"
                          THEN /\ claim' = claim /\ dev' = dev                                  \* somebody else holds the claim
-                              /\ IF Reclaim THEN Goto(p, "ClaimGet") ELSE Return(p, "fail")
+                              /\ IF Reclaim THEN Goto(p, "ClaimGet") ELSE Lost(p)
                     ELSE /\ Goto(p, "GenId")
                          /\ claim' = [claim EXCEPT ![Slot(p)] = IF expired THEN "none" ELSE p]  \* (a claim set after expiry lapses at once)
                          \* deviation: the claim is won although another node's local tier holds one for the same code
@@ -210,7 +228,7 @@ ClaimGet(p) == /\ pc[p] = "ClaimGet"
                /\ LET h == claim[Slot(p)] IN
                   IF h # "none" /\ Cl(h) = Cl(p)
                   THEN Goto(p, "GenId") /\ dev' = dev \cup {"reclaim"}   \* deviation: a second holder of one claim
-                  ELSE Return(p, "fail") /\ dev' = dev
+                  ELSE Lost(p) /\ dev' = dev
                /\ UNCHANGED <<rec, recId, expired, claim, maps, glist, clist, idkeys, snap, faultLeft>>
                /\ Log(p, "ClaimGet", FALSE)
 
@@ -226,11 +244,12 @@ CGet(p) == /\ pc[p] = "CGet"
            /\ Log(p, "CGet", FALSE)
 
 CSet(p, f) == /\ pc[p] = "CSet" /\ UseFault(f)
+              /\ snap' = IF f THEN MarkResetC(p) ELSE snap
               /\ IF f THEN Goto(p, "RelId") /\ maps' = maps /\ dev' = dev
                  ELSE /\ Goto(p, "CApp")
                       /\ maps' = maps \cup {[id |-> p, listen |-> Cl(p), target |-> snap[p].target]}
                       /\ dev' = IF ~Claim /\ maps # {} THEN dev \cup {"noClaim"} ELSE dev   \* deviation: second mapping of one code, nothing claimed
-              /\ UNCHANGED <<rec, recId, expired, claim, glist, clist, idkeys, snap>>
+              /\ UNCHANGED <<rec, recId, expired, claim, glist, clist, idkeys>>
               /\ Log(p, "CSet", f)
 
 CApp(p, f) == /\ pc[p] = "CApp" /\ UseFault(f)
@@ -238,7 +257,8 @@ CApp(p, f) == /\ pc[p] = "CApp" /\ UseFault(f)
                            ELSE Goto(p, "RelId") /\ dev' = dev \cup {"createNoRb"}  \* deviation: record left behind
                       ELSE Goto(p, "IdxL") /\ dev' = dev
               /\ glist' = IF f THEN glist ELSE glist \cup {p}
-              /\ UNCHANGED <<rec, recId, expired, claim, maps, clist, idkeys, snap>>
+              /\ snap' = IF f THEN MarkResetC(p) ELSE snap
+              /\ UNCHANGED <<rec, recId, expired, claim, maps, clist, idkeys>>
               /\ Log(p, "CApp", f)
 
 CDel(p, f) == /\ pc[p] = "CDel" /\ UseFault(f)
@@ -280,7 +300,7 @@ UpdC(p, f) == /\ pc[p] = "UpdC" /\ UseFault(f)
 
 UpdI(p, f) == /\ pc[p] = "UpdI" /\ UseFault(f)
               /\ recId' = IF f \/ expired THEN recId ELSE Activated(p)
-              /\ IF f THEN Goto(p, "RbGet") ELSE Return(p, "ok")
+              /\ IF f THEN Goto(p, "RbGet") ELSE Won(p)
               /\ snap' = IF f THEN MarkReset(p) ELSE snap
               /\ UNCHANGED <<rec, expired, claim, maps, glist, clist, idkeys, dev>>
               /\ Log(p, "UpdI", f)
@@ -340,11 +360,16 @@ RstI(p, f) == /\ pc[p] = "RstI" /\ UseFault(f)
               /\ UNCHANGED <<rec, expired, claim, maps, glist, clist, idkeys, snap, dev>>
               /\ Log(p, "RstI", f)
 
-RelClaim(p, f) == /\ pc[p] = "RelClaim" /\ UseFault(f)
+\* Delete of the claim key (errors ignored). pc "RelClaim": the holder after a failure (the code as it is);
+\* "RelClaimOk": the holder after its success, "RelClaimLost": a caller that lost the claim (design variants RelScope)
+RelClaim(p, f) == /\ pc[p] \in {"RelClaim", "RelClaimOk", "RelClaimLost"} /\ UseFault(f)
                   /\ claim' = IF f THEN claim ELSE [claim EXCEPT ![Slot(p)] = "none"]
-                  /\ Return(p, "fail")
-                  /\ UNCHANGED <<rec, recId, expired, maps, glist, clist, idkeys, snap, dev>>
-                  /\ Log(p, "RelClaim", f)
+                  \* deviation: the key of an activation that succeeded / is still in flight is gone
+                  /\ dev' = IF ~f /\ RelScope # "fail" /\ claim[Slot(p)] # "none" /\ (pc[p] = "RelClaimOk" \/ claim[Slot(p)] # p)
+                            THEN dev \cup {"claimDropped"} ELSE dev
+                  /\ Return(p, IF pc[p] = "RelClaimOk" THEN "ok" ELSE "fail")
+                  /\ UNCHANGED <<rec, recId, expired, maps, glist, clist, idkeys, snap>>
+                  /\ Log(p, pc[p], f)
 
 \* ---- revoker -----------------------------------------------------------------------------
 RRead(p) == /\ pc[p] = "RRead"
@@ -437,11 +462,14 @@ AtMostOneSuccessQ == AtMostOneSuccess \/ "reclaim" \in dev
 \* the quota lock is held by at most one activator per (node, client), and only by calls in flight
 LockOK == /\ \A p, q \in qheld : (p # q) => LockId(p) # LockId(q)
           /\ \A p \in qheld : pc[p] \notin {"idle", "done", "Read", "WLock"}
-\* design variant ResetOnFail: holds only modulo the deviation "resetUndoesRevoke"
+\* design variants ResetOnFail / ResetCreate: holds only modulo the deviation "resetUndoesRevoke"
 NoActivationAfterDeathZ == NoActivationAfterDeath \/ "resetUndoesRevoke" \in dev
 \* design variant ShortClaim: hold only modulo the deviation "claimLapsed"
 AtMostOneMappingT == AtMostOneMapping \/ "claimLapsed" \in dev
 AtMostOneSuccessT == AtMostOneSuccess \/ "claimLapsed" \in dev
+\* design variants RelScope # "fail": hold only modulo the deviation "claimDropped"
+AtMostOneMappingC == AtMostOneMapping \/ "claimDropped" \in dev
+AtMostOneSuccessC == AtMostOneSuccess \/ "claimDropped" \in dev
 \* a node-local claim (ClaimLocal): the properties hold only modulo the deviation "localClaim"
 AtMostOneMappingL == AtMostOneMapping \/ "localClaim" \in dev
 AtMostOneSuccessL == AtMostOneSuccess \/ "localClaim" \in dev
@@ -451,12 +479,13 @@ AtMostOneMappingR == AtMostOneMapping \/ "rbLost" \in dev
 \* the repaired design never takes the deviations it removed
 NoLegacyDev == /\ (Claim => "noClaim" \notin dev) /\ (CreateRb => "createNoRb" \notin dev)
                /\ (~ClaimLocal => "localClaim" \notin dev) /\ (~Reclaim => "reclaim" \notin dev)
-               /\ (~ResetOnFail => "resetUndoesRevoke" \notin dev) /\ (~ShortClaim => "claimLapsed" \notin dev)
+               /\ ((~ResetOnFail /\ ~ResetCreate) => "resetUndoesRevoke" \notin dev) /\ (~ShortClaim => "claimLapsed" \notin dev)
+               /\ (RelScope = "fail" => "claimDropped" \notin dev)
 \* repaired design: while the code has not expired, the claim holder is the only process that can be
 \* between its claim and its return (mutual exclusion of the create-mark-update section)
 InSection(p) == pc[p] \in {"RstC", "RstI", "ClaimGet", "GenId", "CGet", "CSet", "CApp", "CDel", "RelId", "IdxL", "IdxT", "UpdC", "UpdI",
-                           "RbGet", "RbRemL", "RbRemT", "RbRemG", "RbDel", "RbRelId", "RelClaim"}
-ClaimExcludes == (Claim /\ ~ClaimLocal /\ ~Reclaim /\ ~ShortClaim /\ ~expired) => Cardinality({p \in Acts : InSection(p)}) <= 1
+                           "RbGet", "RbRemL", "RbRemT", "RbRemG", "RbDel", "RbRelId", "RelClaim", "RelClaimOk"}
+ClaimExcludes == (Claim /\ ~ClaimLocal /\ ~Reclaim /\ ~ShortClaim /\ RelScope = "fail" /\ ~expired) => Cardinality({p \in Acts : InSection(p)}) <= 1
 
 \* informational, NOT part of C06 (the statement is silent about index lists; kept for C17): index lists never
 \* name a mapping whose record is gone. Holds in every configuration except expiry + a failing
